@@ -59,44 +59,93 @@ theorem toLeaf_ok_iff (x : PyVal) (t : Tree) :
   · rintro ⟨l', v, s, b, rfl, hs, rfl⟩
     simp only [PyVal.toLeaf, (scriptBytes_ok_iff s b).mpr hs]; rfl
 
-/-- what `tree_helper` does not refuse is a well-formed script tree, and every well-formed one is answered -/
-theorem toTree_ok_iff : ∀ (v : PyVal) (t : Tree), v.toTree = .ok t ↔ WellFormed v t
-  | .one l x, t => by
-    show x.toLeaf = .ok t ↔ _
-    rw [toLeaf_ok_iff]
-    constructor
-    · rintro ⟨l', v, s, b, rfl, hs, rfl⟩; exact .leaf l l' v s b hs
-    · rintro (⟨_, l', v, s, b, hs⟩ | _); exact ⟨l', v, s, b, rfl, hs, rfl⟩
-  | .two l x y, t => by
-    have ihx := toTree_ok_iff x
-    have ihy := toTree_ok_iff y
-    constructor
-    · intro h
-      simp only [PyVal.toTree] at h
-      cases hx : x.toTree with
+theorem depth_cap : MAX_TREE_DEPTH = 128 := rfl
+
+/-- on a well-formed script tree `_subtree_helper(·, d)` answers iff no node lies deeper than `MAX_TREE_DEPTH`
+    (`d + depth ≤ 128`), and refuses with the depth refusal otherwise -/
+theorem toTreeAt_wellFormed {v : PyVal} {t : Tree} (h : WellFormed v t) : ∀ d : Nat,
+    v.toTreeAt d = if d + t.depth ≤ 128 then .ok t else .error .deep := by
+  induction h with
+  | leaf l l' z s b hs =>
+    intro d
+    have hl : (PyVal.two l' (.int z) s).toLeaf = .ok (.leaf (z % 256).toNat b) :=
+      (toLeaf_ok_iff _ _).mpr ⟨l', z, s, b, rfl, hs, rfl⟩
+    have hdep : (Tree.leaf (z % 256).toNat b).depth = 0 := rfl
+    unfold PyVal.toTreeAt
+    rw [hl]
+    by_cases hd : d > MAX_TREE_DEPTH
+    · rw [if_pos hd]; rw [depth_cap] at hd
+      rw [if_neg (by rw [hdep]; omega)]
+    · rw [if_neg hd]; rw [depth_cap] at hd
+      rw [if_pos (by rw [hdep]; omega)]
+  | node l x y tx ty _ _ ihx ihy =>
+    intro d
+    have hdep : (Tree.node tx ty).depth = max tx.depth ty.depth + 1 := rfl
+    unfold PyVal.toTreeAt
+    rw [ihx (d + 1), ihy (d + 1)]
+    by_cases hd : d > MAX_TREE_DEPTH
+    · rw [if_pos hd]; rw [depth_cap] at hd
+      rw [if_neg (by rw [hdep]; omega)]
+    · rw [if_neg hd]; rw [depth_cap] at hd
+      by_cases hx : d + 1 + tx.depth ≤ 128
+      · rw [if_pos hx]
+        by_cases hy : d + 1 + ty.depth ≤ 128
+        · rw [if_pos hy, if_pos (by rw [hdep]; omega)]
+        · rw [if_neg hy, if_neg (by rw [hdep]; omega)]
+      · rw [if_neg hx]
+        exact (if_neg (by rw [hdep]; omega)).symm
+
+/-- whatever `_subtree_helper` answers is a well-formed script tree -/
+theorem toTreeAt_ok_wellFormed : ∀ (v : PyVal) (d : Nat) (t : Tree), v.toTreeAt d = .ok t → WellFormed v t
+  | .one l x, d, t, h => by
+    simp only [PyVal.toTreeAt] at h
+    split at h
+    · cases h
+    · obtain ⟨l', z, s, b, rfl, hs, rfl⟩ := (toLeaf_ok_iff x t).mp h
+      exact .leaf l l' z s b hs
+  | .two l x y, d, t, h => by
+    simp only [PyVal.toTreeAt] at h
+    split at h
+    · cases h
+    · cases hx : x.toTreeAt (d + 1) with
       | error e => rw [hx] at h; cases h
       | ok tx =>
-        cases hy : y.toTree with
+        cases hy : y.toTreeAt (d + 1) with
         | error e => rw [hx, hy] at h; cases h
         | ok ty =>
           rw [hx, hy] at h; cases h
-          exact .node l x y tx ty ((ihx tx).mp hx) ((ihy ty).mp hy)
-    · rintro (_ | ⟨_, _, _, tx, ty, hx, hy⟩)
-      simp only [PyVal.toTree, (ihx tx).mpr hx, (ihy ty).mpr hy]
-  | .int _, t => by constructor <;> intro h <;> first | (simp [PyVal.toTree] at h) | cases h
-  | .atom _, t => by constructor <;> intro h <;> first | (simp [PyVal.toTree] at h) | cases h
-  | .nil _, t => by constructor <;> intro h <;> first | (simp [PyVal.toTree] at h) | cases h
-  | .many _ _, t => by constructor <;> intro h <;> first | (simp [PyVal.toTree] at h) | cases h
-  | .cmds n b, t => by
-    constructor
-    · intro h
-      unfold PyVal.toTree at h
-      split at h
-      · rename_i heq; cases heq
-      · rename_i heq; cases heq
-      · cases h
-      · cases h
-    · intro h; cases h
+          exact .node l x y tx ty (toTreeAt_ok_wellFormed x _ tx hx) (toTreeAt_ok_wellFormed y _ ty hy)
+  | .int _, d, t, h => by simp only [PyVal.toTreeAt] at h; split at h <;> cases h
+  | .atom _, d, t, h => by simp only [PyVal.toTreeAt] at h; split at h <;> cases h
+  | .nil _, d, t, h => by simp only [PyVal.toTreeAt] at h; split at h <;> cases h
+  | .many _ _, d, t, h => by simp only [PyVal.toTreeAt] at h; split at h <;> cases h
+  | .cmds n b, d, t, h => by
+    unfold PyVal.toTreeAt at h
+    split at h
+    · rename_i heq; cases heq
+    · rename_i heq; cases heq
+    · split at h <;> cases h
+    · split at h <;> cases h
+
+/-- what `tree_helper` does not refuse is a well-formed script tree of depth ≤ `MAX_TREE_DEPTH`, and every such tree
+    is answered -/
+theorem toTree_ok_iff (v : PyVal) (t : Tree) : v.toTree = .ok t ↔ WellFormed v t ∧ t.depth ≤ 128 := by
+  unfold PyVal.toTree
+  constructor
+  · intro h
+    have hw := toTreeAt_ok_wellFormed v 0 t h
+    refine ⟨hw, ?_⟩
+    rw [toTreeAt_wellFormed hw 0] at h
+    split at h
+    · omega
+    · cases h
+  · rintro ⟨hw, hd⟩
+    rw [toTreeAt_wellFormed hw 0, if_pos (by omega)]
+
+/-- a well-formed script tree nested deeper than `MAX_TREE_DEPTH` is refused -/
+theorem toTree_deep {v : PyVal} {t : Tree} (hw : WellFormed v t) (hd : 128 < t.depth) : v.toTree = .error .deep := by
+  unfold PyVal.toTree
+  rw [toTreeAt_wellFormed hw 0, if_neg (by omega)]
 
 theorem wellFormed_truthy {v : PyVal} {t : Tree} (h : WellFormed v t) : v.truthy = true := by
   cases h <;> rfl
@@ -113,11 +162,6 @@ theorem toTree_falsy (v : PyVal) (h : v.truthy = false) : v.toTree = .error .nod
   | one _ _ => cases h
   | two _ _ _ => cases h
   | many _ _ => cases h
-
-/-- a `Tree` as a Python value (nodes as lists or tuples, scripts as lists of `n` commands) -/
-def Tree.toPy (l : Bool) (n : Nat) : Tree → PyVal
-  | .leaf v s => .one l (.two (!l) (.int v) (.cmds n s))
-  | .node x y => .two l (x.toPy l n) (y.toPy l n)
 
 /-- the version as `_tree_helper` keeps it: `& 0xFE` of the residue is `& 0xFE` of the integer -/
 theorem mask_mod (v : Nat) : (v % 256) &&& LEAF_MASK = v &&& LEAF_MASK := by
@@ -136,30 +180,42 @@ theorem treeHelper_norm (H : TagHash) : ∀ t : Tree, treeHelper H t.norm = tree
   | .leaf v s => by simp only [Tree.norm, treeHelper, mask_mod]
   | .node x y => by simp only [Tree.norm, treeHelper, treeHelper_norm H x, treeHelper_norm H y]
 
-theorem toTree_toPy (l : Bool) (n : Nat) : ∀ t : Tree, (t.toPy l n).toTree = .ok t.norm
-  | .leaf v s => by
-    show ((PyVal.cmds n s).scriptBytes).map (Tree.leaf ((v : Int) % 256).toNat) = _
-    have : ((v : Int) % 256).toNat = v % 256 := by omega
-    rw [this]; rfl
-  | .node x y => by
-    simp only [Tree.toPy, PyVal.toTree, toTree_toPy l n x, toTree_toPy l n y, Tree.norm]
+theorem norm_depth : ∀ t : Tree, t.norm.depth = t.depth
+  | .leaf _ _ => rfl
+  | .node x y => by simp only [Tree.norm, Tree.depth, norm_depth x, norm_depth y]
 
-/-- the Python-level `tree_helper` IS the `Tree`-level one on every script tree, whichever way it is spelled -/
+theorem wellFormed_toPy (l : Bool) (n : Nat) : ∀ t : Tree, WellFormed (t.toPy l n) t.norm
+  | .leaf v s => by
+    have : ((v : Int) % 256).toNat = v % 256 := by omega
+    have h := WellFormed.leaf l (!l) (v : Int) (.cmds n s) s (.cmds n s)
+    rw [this] at h; exact h
+  | .node x y => .node l _ _ _ _ (wellFormed_toPy l n x) (wellFormed_toPy l n y)
+
+/-- the Python-level `tree_helper` IS the `Tree`-level one on every script tree of depth ≤ 128, whichever way it is
+    spelled, and refuses every deeper one -/
 theorem treeHelperPy_toPy (H : TagHash) (l : Bool) (n : Nat) (t : Tree) :
-    treeHelperPy H (t.toPy l n) = .ok (treeHelper H t) := by
+    (t.depth ≤ 128 → treeHelperPy H (t.toPy l n) = .ok (treeHelper H t)) ∧
+    (128 < t.depth → treeHelperPy H (t.toPy l n) = .error .deep) := by
   unfold treeHelperPy
-  rw [toTree_toPy, ← treeHelper_norm H t]; rfl
+  constructor
+  · intro hd
+    rw [(toTree_ok_iff _ _).mpr ⟨wellFormed_toPy l n t, by rw [norm_depth]; exact hd⟩, ← treeHelper_norm H t]; rfl
+  · intro hd
+    rw [toTree_deep (wellFormed_toPy l n t) (by rw [norm_depth]; exact hd)]; rfl
 
 theorem treeHelperPy_ok_iff (H : TagHash) (v : PyVal) (r : List LeafInfo × Bytes) :
-    treeHelperPy H v = .ok r ↔ ∃ t, WellFormed v t ∧ r = treeHelper H t := by
+    treeHelperPy H v = .ok r ↔ ∃ t, WellFormed v t ∧ t.depth ≤ 128 ∧ r = treeHelper H t := by
   unfold treeHelperPy
   constructor
   · intro h
     cases ht : v.toTree with
     | error e => rw [ht] at h; cases h
-    | ok t => rw [ht] at h; cases h; exact ⟨t, (toTree_ok_iff v t).mp ht, rfl⟩
-  · rintro ⟨t, hw, rfl⟩
-    rw [(toTree_ok_iff v t).mpr hw]; rfl
+    | ok t =>
+      rw [ht] at h; cases h
+      obtain ⟨hw, hd⟩ := (toTree_ok_iff v t).mp ht
+      exact ⟨t, hw, hd, rfl⟩
+  · rintro ⟨t, hw, hd, rfl⟩
+    rw [(toTree_ok_iff v t).mpr ⟨hw, hd⟩]; rfl
 
 section entry
 variable {α : Type} (o : GroupOps α) (H : TagHash)
@@ -167,12 +223,12 @@ variable {α : Type} (o : GroupOps α) (H : TagHash)
 /-- on a well-formed tree (and SEC octets of a length `_sec_from_key` lets through) the three entry points are the
     `Tree`-level functions T1–T3 are stated about -/
 theorem entry_points_wellFormed (sec : Option Bytes) (v : PyVal) (t : Tree) (d i : Int) (hw : WellFormed v t)
-    (hk : secLenBad sec = false) :
+    (hd : t.depth ≤ 128) (hk : secLenBad sec = false) :
     outputPubkeyPy o H sec v = outputPubkey o H sec (some t) ∧
     outputPrvkeyPy o H d v = outputPrvkey o H d (some t) ∧
     inputScriptSigPy o H sec v i = inputScriptSig o H sec t i := by
   have h1 := wellFormed_truthy hw
-  have h2 := (toTree_ok_iff v t).mpr hw
+  have h2 := (toTree_ok_iff v t).mpr ⟨hw, hd⟩
   simp [outputPubkeyPy, outputPrvkeyPy, inputScriptSigPy, h1, h2, hk]
 
 /-- a falsy tree is no tree for `output_pubkey` / `output_prvkey` (key path only), and is refused by
